@@ -200,7 +200,20 @@ func ZZHarnessAttester() {
 		func() slotticker.SlotTicker { return tk }, reorg, idxc)
 	go h.HandleDuties(context.Background())
 
-	lastInvalidation := -1 // sequence number of the last reorg / indices event
+	// Which stored assignment an event makes stale (per epoch; the sequence number of the event):
+	//   previous dependent root changed -> the running epoch (and the next one once it may have been prefetched)
+	//   current dependent root changed  -> only the next epoch (once it may have been prefetched)
+	//   indices change                  -> the next epoch (same condition); the running epoch is re-fetched right
+	//                                      after the next tick has executed its duties
+	inv := map[phase0.Epoch]int{}
+	invOf := func(e phase0.Epoch) int {
+		if v, ok := inv[e]; ok {
+			return v
+		}
+		return -1
+	}
+	prefetched := func(s phase0.Slot) bool { return uint64(s)%zzSPE > zzSPE/2-2 }
+	pendingIdx := false
 	ticked := false
 	for i := 0; i < k; i++ {
 		zzSeq++
@@ -208,6 +221,7 @@ func ZZHarnessAttester() {
 		if ticked { // the first event is a tick (the handler starts on a tick)
 			ev = zzChoose("event", 4)
 		}
+		epochNow := phase0.Epoch(tk.slot / zzSPE)
 		switch ev {
 		case 0: // tick of the current slot; afterwards the clock moves to the next slot
 			nexec := len(execs)
@@ -217,11 +231,15 @@ func ZZHarnessAttester() {
 			slot := tk.slot
 			epoch := phase0.Epoch(slot / zzSPE)
 			// liveness: the epoch's assignment was fetched successfully before this tick, names this slot, and
-			// nothing invalidated it since => dispatched now (attester + aggregator)
+			// nothing made it stale since => dispatched now (attester + aggregator)
 			lf := zzLatestFetch(bn.fetches, epoch)
-			if lf != nil && lf.ok && lf.slot == slot && lf.seq < zzSeq && lastInvalidation < lf.seq {
+			if lf != nil && lf.ok && lf.slot == slot && lf.seq < zzSeq && invOf(epoch) <= lf.seq {
 				zzReach("due")
 				zzAssert(len(execs) == nexec+2, "fetched-duty-dispatched-exactly-once-at-its-tick")
+			}
+			if pendingIdx {
+				inv[epoch] = zzSeq
+				pendingIdx = false
 			}
 			tk.slot++
 			bc.slot = tk.slot
@@ -229,17 +247,25 @@ func ZZHarnessAttester() {
 		case 1:
 			reorg <- ReorgEvent{Slot: tk.slot, Previous: true}
 			zzYield()
-			lastInvalidation = zzSeq
+			inv[epochNow] = zzSeq
+			if prefetched(tk.slot) {
+				inv[epochNow+1] = zzSeq
+			}
 			zzReach("reorg-previous")
 		case 2:
 			reorg <- ReorgEvent{Slot: tk.slot, Current: true}
 			zzYield()
-			lastInvalidation = zzSeq
+			if prefetched(tk.slot) {
+				inv[epochNow+1] = zzSeq
+			}
 			zzReach("reorg-current")
 		case 3:
 			idxc <- struct{}{}
 			zzYield()
-			lastInvalidation = zzSeq
+			pendingIdx = true
+			if prefetched(tk.slot) {
+				inv[epochNow+1] = zzSeq
+			}
 			zzReach("indices-change")
 		}
 	}
@@ -291,6 +317,8 @@ func ZZHarnessProposer() {
 		},
 		func() slotticker.SlotTicker { return tk }, reorg, idxc)
 	go h.HandleDuties(context.Background())
+	// the proposer handler drops the running epoch's assignment only when the CURRENT dependent root changes; an
+	// indices change re-fetches after the next tick has executed, a previous-root reorg changes nothing
 	lastInvalidation := -1
 	ticked := false
 	for i := 0; i < k; i++ {
@@ -308,7 +336,7 @@ func ZZHarnessProposer() {
 			slot := tk.slot
 			epoch := phase0.Epoch(slot / zzSPE)
 			lf := zzLatestFetch(bn.fetches, epoch)
-			if lf != nil && lf.ok && lf.slot == slot && lf.seq < zzSeq && lastInvalidation < lf.seq {
+			if lf != nil && lf.ok && lf.slot == slot && lf.seq < zzSeq && lastInvalidation <= lf.seq {
 				zzReach("due")
 				zzAssert(len(execs) == nexec+1, "fetched-duty-dispatched-exactly-once-at-its-tick")
 			}
@@ -318,7 +346,6 @@ func ZZHarnessProposer() {
 		case 1:
 			reorg <- ReorgEvent{Slot: tk.slot, Previous: true}
 			zzYield()
-			lastInvalidation = zzSeq
 		case 2:
 			reorg <- ReorgEvent{Slot: tk.slot, Current: true}
 			zzYield()
@@ -327,7 +354,6 @@ func ZZHarnessProposer() {
 		case 3:
 			idxc <- struct{}{}
 			zzYield()
-			lastInvalidation = zzSeq
 			zzReach("indices-change")
 		}
 	}
@@ -383,7 +409,13 @@ func ZZHarnessSync() {
 		},
 		func() slotticker.SlotTicker { return tk }, reorg, idxc)
 	go h.HandleDuties(context.Background())
-	lastInvalidation := -1
+	// the sync-committee handler drops only the NEXT period's assignment, on a current-root reorg during the
+	// preparation window; an indices change re-fetches the running period (the old assignment stays until the new
+	// one has arrived)
+	invNext := map[uint64]int{}
+	preparing := func(s phase0.Slot) bool {
+		return uint64(s)%zzSPE >= zzSPE/2-1 && (uint64(s)/zzSPE)%4 >= 2
+	}
 	ticked := false
 	for i := 0; i < k; i++ {
 		zzSeq++
@@ -407,7 +439,8 @@ func ZZHarnessSync() {
 					lf = &bn.sfetches[f]
 				}
 			}
-			if lf != nil && lf.ok && lf.assigned && lastInvalidation < lf.seq {
+			invSeq, dropped := invNext[period]
+			if lf != nil && lf.ok && lf.assigned && (!dropped || invSeq <= lf.seq) {
 				zzReach("due")
 				zzAssert(len(execs) == nexec+2, "fetched-sync-duty-dispatched-exactly-once-at-every-tick-of-its-period")
 				if period == 2 {
@@ -420,16 +453,16 @@ func ZZHarnessSync() {
 		case 1:
 			reorg <- ReorgEvent{Slot: tk.slot, Previous: true}
 			zzYield()
-			lastInvalidation = zzSeq
 		case 2:
 			reorg <- ReorgEvent{Slot: tk.slot, Current: true}
 			zzYield()
-			lastInvalidation = zzSeq
+			if preparing(tk.slot) {
+				invNext[uint64(tk.slot)/spp+1] = zzSeq
+			}
 			zzReach("reorg-current")
 		case 3:
 			idxc <- struct{}{}
 			zzYield()
-			lastInvalidation = zzSeq
 			zzReach("indices-change")
 		}
 	}
